@@ -7,7 +7,7 @@ FAMILY = "kv"
 # Model.Flushable (overlay + the transliterated merged iterator over the inner store's own iterator).
 STREAMS = {
     "kv": {"quick": 4000, "thorough": 150000, "trivial": ["bad-op", "nostore", "nosnap", "noflushable"], "timeout": 1500},
-    "kvflush": {"quick": 4000, "thorough": 150000, "trivial": ["bad-op", "nostore", "nosnap", "noflushable"], "timeout": 1500},
+    "kvflush": {"quick": 6000, "thorough": 200000, "trivial": ["bad-op", "nostore", "nosnap", "noflushable"], "timeout": 1500},
     "kvtable": {"quick": 4000, "thorough": 150000, "trivial": ["bad-op", "nostore", "nosnap", "noflushable"], "timeout": 1500},
 }
 
@@ -20,7 +20,7 @@ _TRUSTED_COMMON = [
 PROPS = {
     "C22": {
         "props": ["LachesisVerif.Props.C22"],
-        "streams": ["kvflush", "kv"],
+        "streams": ["kvflush"],
         "claim": "Proof: for every sorted underlying store, every tree with tombstones, every prefix (nil or not) and start key, draining a fresh "
                  "flushable iterator (tree cursor, parent cursor, prevKey, tombstones, prefix cut-off transliterated; all comparison conditions "
                  "regenerated from flushable.go) equals iterSpec of the view (iter_drain_eq_spec, by induction on the two cursors with the prevKey "
@@ -31,7 +31,7 @@ PROPS = {
         "note": "Trusted: Lean kernel, extractor, harness/diff, gods tree contract (nextNode's parent-pointer walk = in-order successor). "
                 "Iterators are drained at creation; iterators kept across later writes (weakly consistent in the code) are outside theorem and stream. "
                 "The underlying store's own iterator is assumed to obey iterSpec (C23).",
-        "trusted": _TRUSTED_COMMON + ["harness streams kvflush, kv"],
+        "trusted": _TRUSTED_COMMON + ["harness stream kvflush"],
         "assumptions": ["iterators are drained without intervening writes (DESIGN 2.6)",
                         "the underlying store's iterator yields iterSpec of its content (contract shared with C23)",
                         "keys and values are non-nil byte strings (a nil and an empty key are the same key)"],
@@ -46,9 +46,10 @@ PROPS = {
                  "The engines goleveldb / pebble themselves are NOT proved: covered by correspondence only - stream kv runs every op sequence "
                  "(puts, deletes, batches, replays, gets, has, prefix/start iterations, snapshots, empty values) against memory, LevelDB and Pebble, "
                  "bare and under table / flushable / lazy flushable / synced stackings up to depth 3, against the Spec.KV-based model.",
-        "note": "Trusted: Lean kernel, extractor, harness/diff, engine contracts. Two combinations are not generated because the real code fails on them "
-                "(reported as defect candidates): Replay of a goleveldb batch holding an empty value into a flushable writer (value arrives nil = "
-                "delete; writer error swallowed by kvdb/leveldb batch.Replay), and syncedBatch.Replay into a store behind the same mutex (self dead-lock).",
+        "note": "Trusted: Lean kernel, extractor, harness/diff, engine contracts. Found by this stream: Replay of a goleveldb batch holding an empty "
+                "value into a flushable writer lost the value and swallowed the writer's error (repaired in /repo 228cf31, regression case "
+                "corpus/kv/leveldb-replay-empty.ops); syncedBatch.Replay into a store behind the same mutex self-deadlocks (known finding, "
+                "corpus/kv/synced-replay-self.ops, executed under a 2 s guard, not generated at random).",
         "trusted": _TRUSTED_COMMON + ["harness stream kv"],
         "assumptions": ["byte strings have entries < 256 (hypothesis IsBytes of the range theorems)",
                         "LevelDB / Pebble behave as ordered maps (not proved; sampled by the stream)"],
